@@ -584,7 +584,9 @@ class MyPyAstVisitor:
         if return_stmts:
             types = set()
             for return_stmt in return_stmts:
-                if return_stmt.expr is None:  # pragma: no cover
+                if return_stmt.expr is None:
+                    # A return statement without an expression returns None
+                    types.add(sds_types.NamedType(name="None", qname="builtins.None"))
                     continue
 
                 if not isinstance(return_stmt.expr, mp_nodes.CallExpr | mp_nodes.MemberExpr):
